@@ -41,6 +41,24 @@ def analyse(h, steps, rec):
     return float(np.std(r)), float(np.std(rw)), float(D)
 
 
+def reference_wake(h, d):
+    """wake potential recomputed from the stored profile, the stored impedance and the absolute scale implied by the
+    machine parameters (the C06 reference model): cells per step"""
+    n = d["n"]
+    N = d["nmax_wake"]
+    Z = h["/Impedance/data/real"].astype(np.complex128) + 1j * h["/Impedance/data/imag"]
+    rho = h["/BunchProfile/data"][-1, 0].astype(np.float64)
+    delta = float(np.float32(d["pq"] / (n - 1)))
+    scale = d["Ib"] * d["dt"] * cfggen.C / d["bl"] / (delta * d["dE"])
+    kk = np.arange(N // 2)
+    E = np.exp(-2j * np.pi * np.outer(kk, np.arange(N)) / N)
+    P = np.zeros(N)
+    P[:n] = rho
+    Y = Z[:N // 2] * (E @ P)
+    wv = np.real(Y[0] + 2 * (np.conj(E[1:]).T @ Y[1:]))
+    return scale / N * wv[:n]
+
+
 def run_case(case):
     wd = cli.scratch("c05")
     n, steps, P, fam = case["n"], case["steps"], case["P"], case["family"]
@@ -80,6 +98,15 @@ def run_case(case):
     if stat > 0.01:
         return Outcome(True, False, cls + ["not_stationary"], discard=True)
     res, wrong, D = analyse(h, steps, -1)
+    # the same relation with the wake recomputed from the stored profile by the convolution formula (absolute scale
+    # from the machine parameters): this is what ties the sign and strength of the collective force to the impedance
+    dd = cfggen.derive(full)
+    wref = reference_wake(h, dd)
+    h.ds["/WakePotential/data"] = np.array(h["/WakePotential/data"], copy=True)
+    stored = h["/WakePotential/data"][-1, 0].copy()
+    h.ds["/WakePotential/data"][-1, 0] = wref
+    res2, wrong2, D2 = analyse(h, steps, -1)
+    h.ds["/WakePotential/data"][-1, 0] = stored
     delta = 12.0 / (n - 1)
     # discretisation error of the stationary state depends on the derivative stencil and the interpolation order
     # (calibrated: 0.9/0.45/0.2 delta^2 at small D, it=3 adds about 0.05*D); one step's splitting error is O(theta)*D
@@ -92,6 +119,10 @@ def run_case(case):
     if res > tol:
         return Outcome(False, nontriv, cls, "stationary bunch does not satisfy ln rho + q^2/2 - (1/dtheta) int W dq = const: std over the core %.4f > %.4f (with the opposite sign of the wake term: %.4f); %s, D=%.3f, n=%d, steps=%d, current %.3g A" %
                        (res, tol, wrong, fam, D, n, steps, I), sig="c05:haissinski:%s" % ("sign" if wrong < res else "strength"), metrics=met)
+    met["residual_refwake_over_tol"] = res2 / tol
+    if res2 > tol * 1.2:
+        return Outcome(False, nontriv, cls, "stationary bunch does not satisfy the Haissinski equation with the wake recomputed from its profile and the stored impedance: std over the core %.4f > %.4f (opposite sign: %.4f; with the stored wake: %.4f); %s, D=%.3f (recomputed %.3f), n=%d" %
+                       (res2, 1.2 * tol, wrong2, res, fam, D, D2, n), sig="c05:haissinski_refwake:%s" % ("sign" if wrong2 < res2 else "strength"), metrics=met)
     sp = float(h["/EnergySpread/data"][-1, 0])
     tau = (0.5 if case["deriv"] == 3 else 0.1) * delta ** 2 + 0.003 + 0.005 + 0.03 * D
     met["espread_dev"] = abs(sp - 1) / tau
